@@ -70,6 +70,10 @@ type propConfig struct {
 	Roots    []string       `json:"roots,omitempty"` // panic-freedom: substrings of function keys that are entry points
 	Exclude  []string       `json:"exclude,omitempty"`
 	Bounded  []boundedCheck `json:"bounded,omitempty"` // bounded stand-ins run on every check
+	// error-kind sweep: no function reachable from the roots returns an error matching Sentinel
+	// (errors.Is), except the functions whose key contains an Allow entry
+	Sentinel string   `json:"sentinel,omitempty"`
+	Allow    []string `json:"allow,omitempty"`
 }
 
 func cmdCheck(args []string) int {
@@ -195,6 +199,9 @@ func cmdCheck(args []string) int {
 			}
 			cts = append(cts, c)
 		}
+	}
+	if pc.Sweep == "error-kind" {
+		cts = w.errKindSweep(cts, &pc, *prop, *only)
 	}
 	if pc.Sweep == "panic-freedom" {
 		have := map[string]bool{}
